@@ -252,7 +252,7 @@ func (s *SUT) SubmitTx(x *pb.Transaction) string {
 			s.pending = append(s.pending, Problem{Sig: "admission|admitted-inadmissible|submit",
 				Detail: fmt.Sprintf("submitted tx %x admitted although: %s", c.Txid, why)})
 		}
-		if res != "ok" && adm && !strings.Contains(res, "this transaction is in unconfirmed state") {
+		if res != "ok" && adm && !strings.Contains(res, "this transaction is in unconfirmed state") && !strings.Contains(res, "already confirmed on the main chain") {
 			s.pending = append(s.pending, Problem{Sig: "admission|refused-admissible|submit",
 				Detail: fmt.Sprintf("submitted tx %x refused (%s) although every input is current", c.Txid, res)})
 		}
